@@ -14,7 +14,8 @@ RULE = ('shim runs: scenarios whose test rules assign exit != 0, negative (signa
         'constants, N in {1,2,3,5}, random schedules; real-pool runs: genuine pebble pool with a test that really exits 3, '
         'kills itself with SIGKILL or sleeps past the timeout.  Oracle: every committed tuple was logged with exit 0; '
         'non-blocking faults (exit!=0, signal, raise, INVALID) give the sequential reference result; runs end within the '
-        'watchdog; report-directory counts within caps.  non-trivial = distinct scenarios with >= 1 fault verdict and >= 1 commit')
+        'watchdog; report-directory counts within caps.  non-trivial = distinct scenarios with >= 1 fault verdict and >= 1 commit'
+        ' Also: directed scenarios with hanging candidates among several in flight (N in 2..4) compared with the sequential reference.')
 TRUSTED = T0 + ['real-pool runs trust pebble for worker start/kill/timeout delivery (observed, not proved)']
 ASSUMPTIONS = ['deterministic test', 'report directories numbered contiguously from 0 (the model counts them)']
 
